@@ -103,6 +103,11 @@ class Recorder:
         torch.randperm, torch.randint = self._rp, self._ri
 
 
+def bases_rows(b):
+    """bases batch -> list of rows of letters; a batch that lost its row axis stays visibly different"""
+    return [([str(c) for c in r] if isinstance(r, (list, tuple)) else ["<scalar>", str(r)]) for r in b.tolist()]
+
+
 def rows_int(t):
     return [[int(round(float(x))) for x in row] for row in (t.tolist() if hasattr(t, "tolist") else t)]
 
@@ -165,6 +170,7 @@ def property_oracle(data, bases, B, negB_eff, mirror, ep):
 def one_fit(ctx, case):
     import random
 
+    ctx.current_case = case
     kind, n, N, B, neg, epochs, form = case["kind"], case["n"], case["N"], case["B"], case["neg"], case["epochs"], case["form"]
     data, bases = case["data"], case["bases"]
     rng = random.Random(case["dseed"])
@@ -179,7 +185,7 @@ def one_fit(ctx, case):
 
     def cbg(k, samples_batch, neg_batch, bases_batch=None):
         rec.log.append(("batch", rows_int(samples_batch), rows_int(neg_batch),
-                        [list(map(str, r)) for r in bases_batch.tolist()] if bases_batch is not None else None,
+                        bases_rows(bases_batch) if bases_batch is not None else None,
                         (storage_key(samples_batch), storage_key(neg_batch), storage_key(bases_batch) if bases_batch is not None else None)))
         alias.append(shares_memory(samples_batch, data_obj) or shares_memory(neg_batch, data_obj)
                      or (bases_batch is not None and shares_memory(bases_batch, bases_obj)))
@@ -220,17 +226,6 @@ def one_fit(ctx, case):
     sig = f"{kind}/fit"
     expect_error = case.get("malformed")
     after_d, after_b = snapshot(data_obj), (snapshot(bases_obj) if bases_obj is not None else None)
-    if bases is not None and N == 1 and not expect_error and err == "IndexError":
-        # finding F10 (see notes/C07.md): numpy treats a ONE-element torch index tensor as a scalar, so
-        # `input_bases[pos_batch_perm]` loses the row axis and fit raises. Reported; the model describes the repaired behaviour.
-        ctx.count("F10_N==1_with_bases_IndexError_reproduced")
-        if not any("F10" in x for x in ctx.notes):
-            ctx.note("F10 reproduced: fit(N=1, input_bases=...) raises IndexError (signature fit/bases/N==1/numpy-scalar-index); "
-                     "not counted as a violation pending a fix:/known entry")
-        ctx.oracle("caller's data unchanged (bytes, identity, dtype)", after_d == snap_d, case, sig=f"{sig}/no-mutation-data", theorem="C07_no_mutation")
-        ctx.oracle("caller's bases unchanged", after_b == snap_b, case, sig=f"{sig}/no-mutation-bases", theorem="C07_no_mutation")
-        return
-
     # ---- oracles on the implementation
     if not expect_error:
         ctx.oracle("fit raised", err is None, case, detail=err, sig=f"{sig}/exception")
@@ -284,6 +279,7 @@ def one_fit(ctx, case):
 def one_direct(ctx, case):
     import random
 
+    ctx.current_case = case
     kind, n, N, B, negB, nb = case["kind"], case["n"], case["N"], case["B"], case["negB"], case["nb"]
     data, bases = case["data"], case["bases"]
     rng = random.Random(case["dseed"])
@@ -320,13 +316,10 @@ def one_direct(ctx, case):
         mz = ctx.driver.call("c07.refbasis", samples=data, bases=bases)
         ctx.point("extract_refbasis_samples", "property", zl, mz.get("z"), case, exact=True, sig=f"{kind}/refbasis", theorem="C07_refbasis")
     m = ctx.driver.call("c07.shuffle", perm=perm, negIdx=negIdx, posB=B, negB=negB, numBatches=nb, samples=data, bases=bases, zSamples=zl)
-    if bases is not None and N == 1 and out and len(out[0]) > 2 and getattr(out[0][2], "ndim", 2) == 1:
-        ctx.count("F10_direct_shuffle_bases_batch_lost_row_axis")
-        return
     if err is not None or "error" in m:
         ctx.point("direct _shuffle_data error kind", "aux", err, m.get("error"), case, exact=True, sig=f"{sig}/error")
         return
-    impl_b = [{"pos": rows_int(t[0]), "neg": rows_int(t[1]), "bases": [list(map(str, r)) for r in t[2].tolist()] if len(t) > 2 else None} for t in out]
+    impl_b = [{"pos": rows_int(t[0]), "neg": rows_int(t[1]), "bases": bases_rows(t[2]) if len(t) > 2 else None} for t in out]
     ctx.point("direct _shuffle_data batches", "aux", impl_b, m["batches"], case, exact=True, sig=f"{sig}/batches", theorem="C07_zip_truncation")
     want = -(-N // B) if (bases is None and negB == B) else min(-(-N // B), nb)
     ctx.oracle("zip length = min(ceil(N/B), num_batches)", len(out) == want, case, detail={"len": len(out), "expected": want},
